@@ -1,6 +1,7 @@
 package main
 
 import (
+	"go/token"
 	"fmt"
 	"go/types"
 	"strconv"
@@ -186,20 +187,8 @@ func (e *Env) call(x *ECall) Val {
 				return v
 			}
 		}
-		if fc := g.P.ContractFor(fn); fc != nil && fc.Opts["pure"] != "" {
-			if e.inQuant > 0 || e.symHeap != nil {
-				// under a binder the ensures cannot be instantiated at this term: use the quantified contract
-				g.pureAxiom(fn, fc)
-				uf := "uf!" + sanitize(full)
-				var sorts, as []string
-				for _, a := range args {
-					sorts = append(sorts, a.Sort)
-					as = append(as, a.S)
-				}
-				g.declFun(uf, sorts, g.sortOf(rt))
-				return Val{S: app(uf, as...), Sort: g.sortOf(rt), GT: rt}
-			}
-			return g.applyPure(fn, fc, args, e.reach)
+		if v, ok := e.pureCall(fn, args, rt); ok {
+			return v
 		}
 		if uf := g.pureUF(fn); uf != "" {
 			var sorts, as []string
@@ -587,6 +576,43 @@ func typeText(x Expr) string {
 	panic(specError{"expected a type, found " + exprString(x)})
 }
 
+// pureCall translates a call of a function whose contract is declared pure into its uninterpreted function.
+func (e *Env) pureCall(fn *ssa.Function, args []Val, rt types.Type) (Val, bool) {
+	g := e.g
+	fc := g.P.ContractFor(fn)
+	if fc != nil && fc.Opts["heappure"] != "" {
+		// heap-reading deterministic function: an uninterpreted application (no axioms; facts about it come
+		// from the ensures assumed at real call sites)
+		if !g.heapStable() {
+			e.fail("heap-dependent pure function %s used in the contract of a function that may modify the heap", fullName(fn))
+		}
+		uf := heapPureUF(fn)
+		var sorts, as []string
+		for _, a := range args {
+			sorts = append(sorts, a.Sort)
+			as = append(as, a.S)
+		}
+		g.declFun(uf, sorts, g.sortOf(rt))
+		return Val{S: app(uf, as...), Sort: g.sortOf(rt), GT: rt}, true
+	}
+	if fc == nil || fc.Opts["pure"] == "" {
+		return Val{}, false
+	}
+	if e.inQuant > 0 || e.symHeap != nil {
+		// under a binder the ensures cannot be instantiated at this term: use the quantified contract
+		g.pureAxiom(fn, fc)
+		uf := "uf!" + sanitize(fullName(fn))
+		var sorts, as []string
+		for _, a := range args {
+			sorts = append(sorts, a.Sort)
+			as = append(as, a.S)
+		}
+		g.declFun(uf, sorts, g.sortOf(rt))
+		return Val{S: app(uf, as...), Sort: g.sortOf(rt), GT: rt}, true
+	}
+	return g.applyPure(fn, fc, args, e.reach), true
+}
+
 // methodCall: x.M(args) on a real Go method, inlined (lemmas and ground contexts only).
 func (e *Env) methodCall(sel *ESel, x *ECall) Val {
 	g := e.g
@@ -618,6 +644,13 @@ func (e *Env) methodCall(sel *ESel, x *ECall) Val {
 		}
 		args = append(args, v)
 	}
+	var mrt types.Type = fn.Signature.Results()
+	if fn.Signature.Results().Len() == 1 {
+		mrt = fn.Signature.Results().At(0).Type()
+	}
+	if v, ok := e.pureCall(fn, args, mrt); ok {
+		return v
+	}
 	if v, ok := e.inlineGo(fn, args); ok {
 		return v
 	}
@@ -633,10 +666,173 @@ func derefNamed(t types.Type) (*types.Named, bool) {
 	return n, ok
 }
 
+// leafExpr translates a call of a small loop-free Go function that only computes on its arguments
+// (comparisons, arithmetic, struct field extraction, conversions, short-circuit operators) into a closed
+// expression by substitution. Unlike inlineGo it introduces no named definitions, so it may be used under
+// quantifiers and in spec functions. ok=false if the function is outside this subset.
+func (e *Env) leafExpr(fn *ssa.Function, args []Val) (Val, bool) {
+	g := e.g
+	if len(fn.Blocks) == 0 || len(fn.Blocks) > 12 || fn.Signature.Results().Len() != 1 || len(fn.FreeVars) > 0 {
+		return Val{}, false
+	}
+	for _, b := range fn.Blocks {
+		for _, in := range b.Instrs {
+			switch in := in.(type) {
+			case *ssa.DebugRef, *ssa.BinOp, *ssa.Convert, *ssa.ChangeType, *ssa.Field, *ssa.Phi, *ssa.If, *ssa.Jump, *ssa.Return:
+			case *ssa.Alloc:
+				// a spilled parameter or local (its address is only used for field selection and loads)
+				if in.Heap {
+					return Val{}, false
+				}
+			case *ssa.Store:
+				if _, ok := in.Addr.(*ssa.Alloc); !ok {
+					return Val{}, false
+				}
+			case *ssa.FieldAddr:
+				x := in.X
+				for {
+					if fa, ok := x.(*ssa.FieldAddr); ok {
+						x = fa.X
+						continue
+					}
+					break
+				}
+				if _, ok := x.(*ssa.Alloc); !ok {
+					return Val{}, false
+				}
+			case *ssa.UnOp:
+				if in.Op == token.ARROW {
+					return Val{}, false
+				}
+				if in.Op == token.MUL {
+					x := in.X
+					for {
+						if fa, ok := x.(*ssa.FieldAddr); ok {
+							x = fa.X
+							continue
+						}
+						break
+					}
+					if _, ok := x.(*ssa.Alloc); !ok {
+						return Val{}, false
+					}
+				}
+			default:
+				return Val{}, false
+			}
+		}
+	}
+	// topological order of the (acyclic) control-flow graph
+	indeg := map[*ssa.BasicBlock]int{}
+	for _, b := range fn.Blocks {
+		indeg[b] = len(b.Preds)
+	}
+	var order []*ssa.BasicBlock
+	queue := []*ssa.BasicBlock{fn.Blocks[0]}
+	for len(queue) > 0 {
+		b := queue[0]
+		queue = queue[1:]
+		order = append(order, b)
+		for _, s := range b.Succs {
+			indeg[s]--
+			if indeg[s] == 0 {
+				queue = append(queue, s)
+			}
+		}
+	}
+	if len(order) != len(fn.Blocks) {
+		return Val{}, false // a loop
+	}
+	sub := &Frame{g: g, fn: fn, sfx: "_leaf", subst: true, vals: map[ssa.Value]Val{}, reach: map[*ssa.BasicBlock]string{},
+		freeVars: map[*ssa.FreeVar]Val{}, instrIdx: map[ssa.Instruction]int{}}
+	for i, p := range fn.Params {
+		if i >= len(args) {
+			return Val{}, false
+		}
+		sub.vals[p] = args[i]
+	}
+	rt := fn.Signature.Results().At(0).Type()
+	var result *Val
+	locals := map[*ssa.Alloc]Val{}
+	var loadLocal func(addr ssa.Value) Val
+	loadLocal = func(addr ssa.Value) Val {
+		switch a := addr.(type) {
+		case *ssa.Alloc:
+			if v, ok := locals[a]; ok {
+				return v
+			}
+			return g.zero(a.Type().Underlying().(*types.Pointer).Elem())
+		case *ssa.FieldAddr:
+			return g.structField(loadLocal(a.X), a.Field)
+		}
+		panic(specError{"leafExpr: unexpected address"})
+	}
+	for _, b := range order {
+		r := "true"
+		if b != fn.Blocks[0] {
+			var cs []string
+			for _, p := range b.Preds {
+				cs = append(cs, sub.edgeCond(p, b))
+			}
+			r = or(cs...)
+		}
+		sub.reach[b] = r
+		sub.curReach = r
+		for _, in := range b.Instrs {
+			switch in := in.(type) {
+			case *ssa.Phi:
+				var v Val
+				for i := len(b.Preds) - 1; i >= 0; i-- {
+					x := sub.val(in.Edges[i])
+					if v.S == "" {
+						v = x
+						v.GT = in.Type()
+						continue
+					}
+					v = Val{S: fmt.Sprintf("(ite %s %s %s)", sub.edgeCond(b.Preds[i], b), x.S, v.S), Sort: x.Sort, GT: in.Type()}
+				}
+				sub.vals[in] = v
+			case *ssa.If, *ssa.Jump, *ssa.DebugRef, *ssa.Alloc, *ssa.FieldAddr:
+			case *ssa.Store:
+				if len(order) > 1 && b != fn.Blocks[0] {
+					return Val{}, false // stores to locals only in the entry block (parameter spills)
+				}
+				locals[in.Addr.(*ssa.Alloc)] = sub.val(in.Val)
+			case *ssa.UnOp:
+				if in.Op == token.MUL {
+					v := loadLocal(in.X)
+					v.GT = in.Type()
+					sub.vals[in] = v
+				} else {
+					sub.instr(in)
+				}
+			case *ssa.Return:
+				x := sub.val(in.Results[0])
+				if result == nil {
+					x.GT = rt
+					result = &x
+				} else {
+					nv := Val{S: fmt.Sprintf("(ite %s %s %s)", r, x.S, result.S), Sort: x.Sort, GT: rt}
+					result = &nv
+				}
+			default:
+				sub.instr(in)
+			}
+		}
+	}
+	if result == nil {
+		return Val{}, false
+	}
+	return *result, true
+}
+
 // inlineGo symbolically executes a real (loop-free or contracted) Go function inside a lemma.
 func (e *Env) inlineGo(fn *ssa.Function, args []Val) (Val, bool) {
 	g := e.g
 	if e.inQuant > 0 || e.lemmaFrame == nil {
+		if g.P.ContractFor(fn) == nil {
+			return e.leafExpr(fn, args)
+		}
 		return Val{}, false
 	}
 	fr := e.lemmaFrame
